@@ -1,0 +1,195 @@
+//go:build verif
+
+// Contracts for package fpgo, part 3: Maybe (C01).
+package fpgo
+
+// ===================================================================================================
+// C01 - Maybe: one notion of absence.  absent(v) := v is the untyped nil, or v is a pointer and it is nil
+// (reflect is axiomatised on the observers untyped / rkind / nilref / relem; every reflect call carries its panic
+// precondition as an obligation).  wf(m) := m.isNil == absent(m.ref) && m.isPresent == !m.isNil.
+
+//@ define MB_WF(m) = m.isNil == absent(m.ref) && m.isPresent == !m.isNil
+
+//@ func IsNil
+//@   prop C01
+//@   ensures def: r0 == absent(obj)
+
+//@ func IsPtr
+//@   prop C01
+//@   ensures def: r0 == (rkind(obj) == 22)
+
+//@ func Kind
+//@   prop C01
+//@   ensures def: r0 == rkind(obj)
+
+// every observer of a well-formed Maybe is a function of absent(ref) and ref
+//@ func (someDef).IsNil
+//@   prop C01
+//@   pure
+//@   requires MB_WF(maybeSelf)
+//@   ensures def: r0 == absent(maybeSelf.ref)
+
+//@ func (someDef).IsPresent
+//@   prop C01
+//@   pure
+//@   requires MB_WF(maybeSelf)
+//@   ensures def: r0 == !absent(maybeSelf.ref)
+
+//@ func (someDef).Or
+//@   prop C01
+//@   requires MB_WF(maybeSelf)
+//@   ensures absent: absent(maybeSelf.ref) ==> r0 == or
+//@   ensures present: !absent(maybeSelf.ref) ==> r0 == maybeSelf.ref
+
+//@ func (someDef).Unwrap
+//@   prop C01
+//@   ensures def: r0 == maybeSelf.ref
+
+//@ func (someDef).UnwrapInterface
+//@   prop C01
+//@   requires MB_WF(maybeSelf)
+//@   ensures absent: absent(maybeSelf.ref) ==> untyped(r0)
+//@   ensures present: !absent(maybeSelf.ref) ==> r0 == maybeSelf.ref
+
+//@ func (someDef).IsValid
+//@   prop C01
+//@   ensures def: r0 == !untyped(maybeSelf.ref)
+
+//@ func (someDef).IsPtr
+//@   prop C01
+//@   ensures def: r0 == (rkind(maybeSelf.ref) == 22)
+
+//@ func (someDef).Kind
+//@   prop C01
+//@   ensures def: r0 == rkind(maybeSelf.ref)
+
+//@ func (someDef).Type
+//@   prop C01
+//@   requires MB_WF(maybeSelf)
+//@   ensures absent: absent(maybeSelf.ref) ==> r0 == 0
+//@   ensures present: !absent(maybeSelf.ref) ==> r0 == rtype(maybeSelf.ref) && r0 != 0
+
+//@ func (someDef).IsKind
+//@   prop C01
+//@   ensures def: r0 == (rkind(maybeSelf.ref) == t)
+
+//@ func (someDef).FlatMap
+//@   prop C01
+//@   ensures def: r0 == fn(maybeSelf.ref)
+
+//@ func (someDef).ToString
+//@   prop C01
+//@   requires MB_WF(maybeSelf)
+//@   ensures absent: absent(maybeSelf.ref) ==> r0 == "<nil>"
+//@   ensures string: !absent(maybeSelf.ref) && convIsString(maybeSelf.ref) ==> r0 == strof(maybeSelf.ref)
+
+// ToPtr never panics (the reflect preconditions inside it are the obligations)
+//@ func (someDef).ToPtr
+//@   prop C01
+//@   requires MB_WF(maybeSelf)
+
+// the None value: every observer answers "absent"
+//@ func (noneDef).Or
+//@   prop C01
+//@   ensures def: r0 == or
+//@ func (noneDef).IsNil
+//@   prop C01
+//@   ensures def: r0 == true
+//@ func (noneDef).IsPresent
+//@   prop C01
+//@   ensures def: r0 == false
+//@ func (noneDef).Unwrap
+//@   prop C01
+//@   ensures def: untyped(r0)
+//@ func (noneDef).UnwrapInterface
+//@   prop C01
+//@   ensures def: untyped(r0)
+//@ func (noneDef).ToString
+//@   prop C01
+//@   ensures def: r0 == "<nil>"
+//@ func (noneDef).ToPtr
+//@   prop C01
+//@   ensures def: r0 == nil
+//@ func (noneDef).Type
+//@   prop C01
+//@   ensures def: r0 == 0
+//@ func (noneDef).Kind
+//@   prop C01
+//@   ensures def: r0 == 0
+//@ func (noneDef).IsPtr
+//@   prop C01
+//@   ensures def: r0 == false
+//@ func (noneDef).ToFloat64
+//@   prop C01
+//@   ensures def: r1 == ErrConversionNil
+//@ func (noneDef).ToFloat32
+//@   prop C01
+//@   ensures def: r1 == ErrConversionNil
+//@ func (noneDef).ToInt
+//@   prop C01
+//@   ensures def: r0 == 0 && r1 == ErrConversionNil
+//@ func (noneDef).ToInt32
+//@   prop C01
+//@   ensures def: r0 == 0 && r1 == ErrConversionNil
+//@ func (noneDef).ToInt64
+//@   prop C01
+//@   ensures def: r0 == 0 && r1 == ErrConversionNil
+//@ func (noneDef).ToBool
+//@   prop C01
+//@   ensures def: r0 == false && r1 == ErrConversionNil
+
+// constructors establish wf; Just maps every absent value to None
+//@ func JustGenerics
+//@   prop C01
+//@   ensures some: isa(r0, someDef) && as(r0, someDef).ref == in && MB_WF(as(r0, someDef))
+
+//@ func (someDef).Just
+//@   prop C01
+//@   ensures absent: absent(in) ==> isa(r0, noneDef)
+//@   ensures present: !absent(in) ==> isa(r0, someDef) && as(r0, someDef).ref == in && MB_WF(as(r0, someDef))
+
+// ToMaybe flattens exactly one level: a wrapped value that is itself a Maybe is returned as it is, once
+//@ func (someDef).ToMaybe
+//@   prop C01
+//@   requires MB_WF(maybeSelf)
+//@   ensures absent: absent(maybeSelf.ref) ==> r0 == boxed(maybeSelf)
+//@   ensures nested: !absent(maybeSelf.ref) && impl(maybeSelf.ref, MaybeDef) ==> r0 == maybeSelf.ref
+//@   ensures plain: !absent(maybeSelf.ref) && !impl(maybeSelf.ref, MaybeDef) ==> r0 == boxed(maybeSelf)
+
+// interface-level observers of a MaybeDef value m: munwrap(m) is what m wraps; every implementation answers IsNil by absent(munwrap)
+// (someDef: proved above as (someDef).IsNil / (someDef).Unwrap; None: IsNil true, Unwrap nil)
+//@ func (MaybeDef).IsNil
+//@   prop C01
+//@   opt interface=true
+//@   pure
+//@   ensures def: r0 == absent(ufv("munwrap", self))
+//@ func (MaybeDef).Unwrap
+//@   prop C01
+//@   opt interface=true
+//@   pure
+//@   ensures def: r0 == ufv("munwrap", self)
+
+// CloneTo: never panics when the destination is absent (Clone's case) or a non-nil pointer; the result is a well-formed Maybe
+//@ func CloneTo
+//@   prop C01
+//@   requires dest-usable: !absent(ufv("munwrap", maybeSelf)) && rkind(ufv("munwrap", maybeSelf)) == 22 ==> absent(dest) || (rkind(dest) == 22 && !nilref(dest))
+//@   ensures some: isa(r0, someDef) && MB_WF(as(r0, someDef))
+//@   ensures absent: absent(ufv("munwrap", maybeSelf)) ==> as(r0, someDef).ref == ufv("munwrap", maybeSelf)
+
+//@ func (someDef).Clone
+//@   prop C01
+//@   requires MB_WF(maybeSelf)
+//@   assume dispatch: ufv("munwrap", boxed(maybeSelf)) == maybeSelf.ref
+//@   assume zero-of-pointer-type-is-nil: rkind(maybeSelf.ref) == 22 ==> absent(zeroof(maybeSelf.ref))
+//@   ensures some: isa(r0, someDef) && MB_WF(as(r0, someDef))
+//@   ensures absent: absent(maybeSelf.ref) ==> as(r0, someDef).ref == maybeSelf.ref
+
+//@ func (noneDef).Clone
+//@   prop C01
+//@   ensures def: isa(r0, noneDef)
+//@ func (noneDef).CloneTo
+//@   prop C01
+//@   ensures def: isa(r0, noneDef)
+//@ func (noneDef).ToMaybe
+//@   prop C01
+//@   ensures def: isa(r0, noneDef)
